@@ -24,7 +24,7 @@ Definition COLON : N := 58%N.
 Definition is_ws (c : N) : bool := (N.eqb c SP || N.eqb c HTAB)%bool.
 Fixpoint lstrip (b : bytes) : bytes :=
   match b with x :: r => if is_ws x then lstrip r else b | [] => [] end.
-Definition strip (b : bytes) : bytes := rev (lstrip (rev (lstrip b))).
+Definition strip (b : bytes) : bytes := rev_append (lstrip (rev_append (lstrip b) [])) [].
 
 (* Headers._sanitizeLinearWhitespace: b" ".join(value.splitlines()) -- every line break (CRLF, bare CR,
    bare LF) inside a value becomes one SP; a line break at the very end disappears *)
